@@ -50,16 +50,18 @@ func (l *MemoryLoader) Load(name string) (Template, error) {
 }
 
 type fileTemplate struct {
-	name   string
-	reader io.Reader
+	name     string
+	contents []byte
 }
 
 func (t *fileTemplate) Name() string {
 	return t.name
 }
 
+// Contents returns a fresh reader each time: a Template may be parsed more than
+// once, and by several goroutines at once.
 func (t *fileTemplate) Contents() io.Reader {
-	return t.reader
+	return bytes.NewReader(t.contents)
 }
 
 // A FilesystemLoader loads templates from a filesystem.
@@ -86,5 +88,5 @@ func (l *FilesystemLoader) Load(name string) (Template, error) {
 	if err != nil {
 		return nil, err
 	}
-	return &fileTemplate{name, bytes.NewReader(contents)}, nil
+	return &fileTemplate{name, contents}, nil
 }
